@@ -131,6 +131,12 @@ func (p *Prog) vn(v ssa.Value) string {
 		return "(" + p.VN(v.X) + ")[" + p.VN(v.Index) + "]"
 	case *ssa.UnOp:
 		if v.Op == token.MUL {
+			// a spilled parameter/local with a single store denotes that value
+			if cell, ok := v.X.(*ssa.Alloc); ok {
+				if st := p.cellStores[cell]; len(st) == 1 && !p.cellEscapes(cell) {
+					return p.VN(st[0])
+				}
+			}
 			return "*(" + p.VN(v.X) + ")"
 		}
 		return v.Op.String() + "(" + p.VN(v.X) + ")"
